@@ -183,6 +183,7 @@ func c10Events(rt *rapid.T) {
 	spec.Events = spec.MaxInFlight + rapid.IntRange(0, 5).Draw(rt, "beyondCapacity")
 	sj, _ := json.Marshal(spec)
 	verdict := isolated("c10events", []string{string(sj)}, nil)
+	verdict = harnessTrouble(verdict)
 	if strings.HasPrefix(verdict, "FAIL:") {
 		rt.Fatalf("%s\nspec %s", verdict, sj)
 	}
